@@ -124,6 +124,25 @@ void mythv_leave(int rank);
   (mythv_point(mythv_p_cas, (p), sizeof(*(p))), __sync_fetch_and_sub((p), (v)))
 #define __sync_fetch_and_add(p, v) \
   (mythv_point(mythv_p_cas, (p), sizeof(*(p))), __sync_fetch_and_add((p), (v)))
+#define __sync_val_compare_and_swap(p, o, n) \
+  (mythv_point(mythv_p_cas, (p), sizeof(*(p))), \
+   __sync_val_compare_and_swap((p), (o), (n)))
+#define __sync_add_and_fetch(p, v) (mythv_point(mythv_p_cas, (p), sizeof(*(p))), __sync_add_and_fetch((p), (v)))
+#define __sync_sub_and_fetch(p, v) (mythv_point(mythv_p_cas, (p), sizeof(*(p))), __sync_sub_and_fetch((p), (v)))
+#define __sync_fetch_and_or(p, v)  (mythv_point(mythv_p_cas, (p), sizeof(*(p))), __sync_fetch_and_or((p), (v)))
+#define __sync_fetch_and_and(p, v) (mythv_point(mythv_p_cas, (p), sizeof(*(p))), __sync_fetch_and_and((p), (v)))
+#define __sync_or_and_fetch(p, v)  (mythv_point(mythv_p_cas, (p), sizeof(*(p))), __sync_or_and_fetch((p), (v)))
+#define __sync_and_and_fetch(p, v) (mythv_point(mythv_p_cas, (p), sizeof(*(p))), __sync_and_and_fetch((p), (v)))
+#define __sync_lock_test_and_set(p, v) (mythv_point(mythv_p_cas, (p), sizeof(*(p))), __sync_lock_test_and_set((p), (v)))
+#define __atomic_compare_exchange_n(p, e, d, w, s, f) \
+  (mythv_point(mythv_p_cas, (p), sizeof(*(p))), __atomic_compare_exchange_n((p), (e), (d), (w), (s), (f)))
+#define __atomic_exchange_n(p, v, m)  (mythv_point(mythv_p_cas, (p), sizeof(*(p))), __atomic_exchange_n((p), (v), (m)))
+#define __atomic_fetch_add(p, v, m)   (mythv_point(mythv_p_cas, (p), sizeof(*(p))), __atomic_fetch_add((p), (v), (m)))
+#define __atomic_fetch_sub(p, v, m)   (mythv_point(mythv_p_cas, (p), sizeof(*(p))), __atomic_fetch_sub((p), (v), (m)))
+#define __atomic_add_fetch(p, v, m)   (mythv_point(mythv_p_cas, (p), sizeof(*(p))), __atomic_add_fetch((p), (v), (m)))
+#define __atomic_sub_fetch(p, v, m)   (mythv_point(mythv_p_cas, (p), sizeof(*(p))), __atomic_sub_fetch((p), (v), (m)))
+#define __atomic_store_n(p, v, m)     (mythv_point(mythv_p_cas, (p), sizeof(*(p))), __atomic_store_n((p), (v), (m)))
+#define __atomic_load_n(p, m)         (mythv_point(mythv_p_cas, (p), sizeof(*(p))), __atomic_load_n((p), (m)))
 #endif
 #define MYTH_VERIF_SPIN(id, lv)   mythv_spin((id), &(lv), sizeof(lv))
 #define MYTH_VERIF_YSPIN(id, lv)  mythv_yspin((id), &(lv), sizeof(lv))
